@@ -264,6 +264,10 @@ def gen_cases(ctx):
             bud = budget32 if rng.random() < 0.3 else 512
         vals, how = sweep_values(rng, sf, bud)
         ops, _ = xlate_ops(rng, sf, vals, slack=1 if sb == 24 else 0)
+        if rng.random() < 0.1:      # rfbSetClientColourMap must not touch the table of a true-colour server
+            ops.append("recmap 1 %d 2 1 2 3 250 251 252" % rng.randint(0, 1))
+            o3, _ = xlate_ops(rng, sf, vals[:64], slack=1 if sb == 24 else 0)
+            ops += o3
         add("tc rand %s" % how, sf, cf, econ, None, ops + geom_ops(sf, cb))
     # 2b. 24-bpp clients (outside the property's stated client domain 8/16/32, but accepted by the library when
     #     LIBVNCSERVER_ALLOW24BPP): single-table and three-table paths of tabletrans24template.c
@@ -336,6 +340,16 @@ def gen_cases(ctx):
         else:
             vals = list(range(min(count + 8, 65536))) + [65535, 32768, rng.randrange(65536)]
         ops, _ = xlate_ops(rng, sf, vals)
+        # the application changes the map and calls rfbSetClientColourMap: ready / not ready, other width, other count
+        for _r in range(rng.choice([0, 1, 1, 2])):
+            ready = rng.choice([1, 1, 1, 0])
+            is16b = rng.randint(0, 1)
+            countb = rng.choice([0, 1, 3, 17, 256]) if sb == 8 else rng.choice([0, 2, 256, 300])
+            limb = 65535 if is16b else 255
+            datab = [rng.choice([0, limb, rng.randint(0, limb)]) for _ in range(3 * countb)]
+            ops.append("recmap %d %d %d %s" % (ready, is16b, countb, " ".join(map(str, datab))))
+            o3, _ = xlate_ops(rng, sf, vals[:300])
+            ops += o3
         add("cmserver", sf, cf, rng.randint(0, 1), (is16, count, data), ops + geom_ops(sf, cf[0]))
     # 8. 24-bpp servers: area exactness (F10): input ends exactly at the guard page
     for _ in range(6 if quick else 40):
@@ -402,7 +416,7 @@ def parse_case(lines):
             d["econ"] = int(p[1])
         elif p[0] == "cmap":
             d["cmap"] = (int(p[1]), int(p[2]), [int(x) for x in p[3:]])
-        elif p[0] in ("setup", "xlate", "extent"):
+        elif p[0] in ("setup", "xlate", "extent", "recmap"):
             d["ops"].append(p)
     return d
 
@@ -448,6 +462,7 @@ def oracle_case(lines, impl_lines):
     it = iter(impl_lines)
     setup_fn = None
     pad_leak = None
+    cur_cmap = d["cmap"] or (0, 0, [])
     for oi, p in enumerate(d["ops"]):
         try:
             line = next(it)
@@ -480,6 +495,12 @@ def oracle_case(lines, impl_lines):
             continue
         if setup_fn is None:
             return None
+        if p[0] == "recmap":
+            if not line.startswith("recmap ret=1"):
+                return ("rfbSetClientColourMap: " + line[:40], dict(feat, kind="recmap"), (oi, 0))
+            if not sf[3] and int(p[1]):          # colour-map server, client ready: the new map applies from now on
+                cur_cmap = (int(p[2]), int(p[3]), [int(v) for v in p[4:]])
+            continue
         stride, w, h = int(p[1]), int(p[2]), int(p[3])
         isz, osz = sf[0] // 8, cfe[0] // 8
         aligned = (stride % isz == 0)
@@ -513,7 +534,7 @@ def oracle_case(lines, impl_lines):
                 if pf_eq(cfe, sf):
                     want = src          # identical formats: verbatim, whatever function was selected
                 else:
-                    pv = expect_pixel(sf, cfe, decode_src(sf, src), d["cmap"] or (0, 0, []))
+                    pv = expect_pixel(sf, cfe, decode_src(sf, src), cur_cmap)
                     want = pv.to_bytes(osz, "big" if cfe[2] else "little")
                 if got != want:
                     kind = "identity" if pf_eq(cfe, sf) else ("cmvalue" if not sf[3] else "value")
@@ -522,9 +543,31 @@ def oracle_case(lines, impl_lines):
     return pad_leak
 
 
+PAD_INITIALISED = [False]
+SWITCHES = {}
+
+
+def read_switches():
+    """source switches regenerated into coq/Gen/Consts_C10.v (tools/consts.d/C10.json)"""
+    sw = {}
+    try:
+        txt = open(os.path.join(vlib.COQ, "Gen", "Consts_C10.v")).read()
+        for name in ("c10_load24_probe", "c10_scale_probe", "c10_rgb24_probe", "c10_pad_probe"):
+            i = txt.index("Definition %s " % name)
+            body = txt[i:txt.index("\n", i)].split(":=", 1)[1]
+            sw[name] = [int(t) for t in body.replace("[", " ").replace("]", " ").replace("(", " ").replace(")", " ")
+                        .replace(";", " ").replace(".", " ").split()]
+    except (OSError, ValueError):
+        pass
+    PAD_INITIALISED[0] = (sw.get("c10_pad_probe") == [0])
+    return sw
+
+
 def canon(line):
-    """the padding byte of the SetColourMapEntries message is not an observable of the correspondence
-    (the library sends an uninitialised byte there, see finding F10e): masked before the diff"""
+    """while the library never initialises the padding byte of its SetColourMapEntries message (finding F10e,
+    switch c10_pad_probe) that byte is not an observable of the correspondence: masked before the diff"""
+    if PAD_INITIALISED[0]:
+        return line
     if line.startswith("setup ok=1") and " msg=01" in line:
         i = line.index(" msg=") + 5
         return line[:i + 2] + "00" + line[i + 4:]
@@ -568,7 +611,17 @@ def minimal_case(lines, op_index, pix_index):
     """reduce a failing case to the single failing pixel"""
     d = parse_case(lines)
     p = d["ops"][op_index]
-    head = [l for l in lines if l.split()[0] in ("case", "sf", "cf", "econ", "cmap", "setup")]
+    head, seen = [], -1
+    for l in lines:
+        k = l.split()[0]
+        if k in ("setup", "xlate", "extent", "recmap"):
+            seen += 1
+            if seen >= op_index:
+                break
+        if k in ("case", "sf", "cf", "econ", "cmap", "setup", "recmap"):
+            head.append(l)
+    if p[0] == "setup":
+        return head + ["setup"]
     if p[0] != "xlate":
         return head + [" ".join(p)]
     isz = d["sf"][0] // 8
@@ -595,6 +648,8 @@ def build(ctx):
             if os.path.exists(os.path.join(src, n)):
                 open(os.path.join(dst, n), "w").write(open(os.path.join(src, n)).read())
     mexe = vlib.build_ocaml("C10", "driver_C10.ml", EXTRACT)
+    SWITCHES.clear()
+    SWITCHES.update(read_switches())
     return cexe, mexe, proof_ok
 
 
@@ -642,7 +697,8 @@ def check(ctx):
              "triples that selected a table-driven function and translated >= 16 pixels",
         samples=[[l[:200] for l in cases[i]] for i in (0, len(cases) // 2, len(cases) - 1)],
         input_distribution=hist, cases=len(cases), correspondence_mismatches=len(mismatches),
-        oracle_failures=len(oracle_fail), exhaustive=False)
+        oracle_failures=len(oracle_fail), exhaustive=False,
+        source_switches={k: v for k, v in SWITCHES.items()})
     ctx.assumptions += ["host is little endian (rfbEndianTest = 1); the model states the byte order explicitly",
                         "C int is 32-bit two's complement and signed overflow wraps (as compiled here); the rule theorems "
                         "carry the no-overflow hypothesis explicitly, the overflowing pairs are the finding F10b",
